@@ -3,6 +3,7 @@ package main
 import (
 	"fmt"
 	"math/rand/v2"
+	"sort"
 	"strconv"
 	"strings"
 )
@@ -451,6 +452,59 @@ func genTieProbe(r *rand.Rand, d *dataset, i int) *querySpec {
 	case 1:
 		q.Where = &pred{Op: "tag", Key: "region", Cmp: "=~", Val: "x|y"}
 	case 2:
+		q.Lo = &bound{d.TLo, true}
+		q.Hi = &bound{d.THi, true}
+	}
+	return q
+}
+
+// genPageProbe: a plain selection with a small LIMIT and an OFFSET drawn over the whole
+// length of its answer. Two of three probes select ONE series by its full tag set (so the
+// window walks through that series' files one after the other); the third reads all series
+// with a LIMIT of at least the series count. Star and explicit field lists alternate.
+func genPageProbe(r *rand.Rand, d *dataset, i int) *querySpec {
+	q := &querySpec{Mst: d.U.Msts[i%len(d.U.Msts)]}
+	rows := 0
+	if i%3 != 2 {
+		keys := make([]string, 0, len(d.Tags))
+		for k := range d.Tags {
+			keys = append(keys, k)
+		}
+		sort.Strings(keys)
+		tags := d.Tags[keys[r.IntN(len(keys))]]
+		q.Where = &pred{Op: "and",
+			L: &pred{Op: "tag", Key: "host", Cmp: "=", Val: tags["host"]},
+			R: &pred{Op: "tag", Key: "region", Cmp: "=", Val: tags["region"]}}
+		for _, part := range d.Parts {
+			for _, p := range part {
+				if p.Mst == q.Mst && p.Tags["host"] == tags["host"] && p.Tags["region"] == tags["region"] {
+					rows++
+				}
+			}
+		}
+		q.Limit = 1 + r.IntN(4)
+	} else {
+		for _, part := range d.Parts {
+			for _, p := range part {
+				if p.Mst == q.Mst {
+					rows++
+				}
+			}
+		}
+		q.Limit = 12 + r.IntN(30)
+	}
+	if rows > 0 {
+		q.Offset = r.IntN(rows)
+	}
+	switch i % 4 {
+	case 0, 1:
+		q.Star = true
+	case 2:
+		q.Cols = []string{"fi", "ff", "fb", "fs"}
+	default:
+		q.Cols = []string{[]string{"fi", "ff", "fs"}[r.IntN(3)]}
+	}
+	if r.IntN(4) == 0 {
 		q.Lo = &bound{d.TLo, true}
 		q.Hi = &bound{d.THi, true}
 	}
